@@ -26,6 +26,8 @@ type liveCase struct {
 	FrontEnd    string            // drc | do-approve
 	Compare     bool
 	Spelling    string // other spelling of the compare verb / flag on the command line
+	NoLogDir    bool   // drc without -L
+	Quiet       bool   // drc -q
 	InfoRaw     string // content of the .info file instead of the generated one
 	Unreachable bool   // SIMULATE_ROUTER points to nothing that answers
 	CheckBanner string // regexp; "" = not configured
@@ -150,7 +152,13 @@ func (lc *liveCase) command(env *run.Env, dir, home, base, simulate string) ([]s
 		if arg == "" {
 			arg = filepath.Join(base, "policies/p1/code", lc.DevName)
 		}
-		argv = append(argv, "-L", filepath.Join(dir, "logs"), arg)
+		if lc.Quiet {
+			argv = append(argv, "-q")
+		}
+		if !lc.NoLogDir {
+			argv = append(argv, "-L", filepath.Join(dir, "logs"))
+		}
+		argv = append(argv, arg)
 	} else {
 		argv = []string{bin}
 		if lc.Brief {
